@@ -74,6 +74,8 @@ type Exec struct {
 	recSpecs map[string]bool
 	refArrays map[string]bool
 	retCovers int
+	entryCover *Obligation
+	fspec *frameSpec
 	retCoverCands []*Obligation
 	axiomNames []string
 }
@@ -282,6 +284,9 @@ func (x *Exec) atLoopHead(st *State, b, prev *ssa.BasicBlock, ord int, k Cont) {
 			x.emit(st, fmt.Sprintf("inv%d:keep:%s", ord, inv.Label), "inv", inv.Src, g)
 			st.assume(g)
 		}
+		if gs := x.loopFrameGoals(st, st.written); len(gs) > 0 {
+			x.emit(st, fmt.Sprintf("inv%d:keep:frame", ord), "frame", "automatic loop invariant: only assigned or fresh locations have changed so far", smtAnd(gs))
+		}
 		x.pathDone()
 		return
 	}
@@ -295,6 +300,11 @@ func (x *Exec) atLoopHead(st *State, b, prev *ssa.BasicBlock, ord int, k Cont) {
 	}
 	// discover the write set of the loop body
 	wkeys, wcells := x.discoverLoopWrites(st, b, prev)
+	if x.discovery == 0 {
+		if gs := x.loopFrameGoals(st, wkeys); len(gs) > 0 {
+			x.emit(st, fmt.Sprintf("inv%d:entry:frame", ord), "frame", "automatic loop invariant: only assigned or fresh locations have changed so far", smtAnd(gs))
+		}
+	}
 	// havoc
 	for _, c := range wcells {
 		if _, promoted := st.promo[c]; promoted {
@@ -327,6 +337,10 @@ func (x *Exec) atLoopHead(st *State, b, prev *ssa.BasicBlock, ord int, k Cont) {
 		x.havocHeapArr(st, key)
 	}
 	st.cut[b] = true
+	// the frame so far is assumed for the havocked arrays (it was proved on entry and is re-proved at the back edge)
+	for _, g := range x.loopFrameGoals(st, wkeys) {
+		st.assume(g)
+	}
 	for _, inv := range ls.Invariants {
 		ienv := x.invEnv(st, b)
 		ienv.dropGuards = true
@@ -1263,7 +1277,7 @@ func (x *Exec) indexAddr(st *State, in *ssa.IndexAddr) *Value {
 			if isAbstractBytes(t) {
 				// element of a byte array held by value: load id then abstract
 				id := x.load(st, b.P, t)
-				return &Value{K: KPtr, T: in.Type(), P: &Pointer{Base: id.Term, Idx: i.Term, Abs: true, Root: at.Elem()}}
+				return &Value{K: KPtr, T: in.Type(), P: &Pointer{Base: id.Term, Idx: i.Term, Abs: true, Root: at.Elem(), AbsLoc: b.P, GhostT: t}}
 			}
 			if n, isC := constInt(i.Term); isC && n >= 0 && int64(n) < at.Len() && at.Len() <= 16 {
 				np := *b.P
@@ -1370,9 +1384,21 @@ func (x *Exec) sliceOp(st *State, in *ssa.Slice) *Value {
 				st.assume(fmt.Sprintf("(= (blen %s) (- %s %s))", tt, hi, lo))
 				return leaf(in.Type(), tt)
 			}
-			if at.Len() <= 16 && in.Low == nil && in.High == nil {
+			hiN := int(at.Len())
+			hiOK := in.High == nil
+			if in.High != nil {
+				if hv, isC := constInt(x.get(st, in.High).Term); isC && hv >= 0 && hv <= int(at.Len()) {
+					hiN, hiOK = hv, true
+				}
+			}
+			if at.Len() <= 16 && (in.Low == nil || lo == "0") && hiOK {
 				av := x.load(st, b.P, t)
-				n := leaf(types.Typ[types.Int], fmt.Sprintf("%d", at.Len()))
+				if av.K == KArr && hiN < len(av.Fs) {
+					c := *av
+					c.Fs = av.Fs[:hiN]
+					av = &c
+				}
+				n := leaf(types.Typ[types.Int], fmt.Sprintf("%d", hiN))
 				if isAbstractBytes(in.Type()) {
 					return x.freshValue(st, in.Type(), "arrslice")
 				}
